@@ -45,3 +45,13 @@ PROPS["C07"] = {
     "assumptions": [_C07_SHAPE, "per-token writers store only non-negative values in scratch->skip_token and restore scratch->recurse_depth (C02(c))",
                     "lemon's Parse re-enters mmd_parse_token_chain only through recursive_parse_* and restores e->recurse_depth (induction on call depth)"],
 }
+
+# ---- measure of the unguarded tree walkers: recursion only descends into a child chain (never along siblings)
+U("c07_descend_whitespace_fix", ["C07"], "h_whitespace_fix", ["C07/descend.c"], ["writer.c"], enforce="whitespace_fix", rec=True, lib=(),
+  cbmc_flags=["--unwind", "4"], kind="bounded", bounds={"shape": "2 siblings, child chains of 2 and 1 tokens"},
+  functions=["whitespace_fix"], callees={"recursive call": "contract (requires: argument is the head of a child chain)"}, min_obligations=10,
+  assumptions=["token types symbolic; shape fixed (2 siblings with children)"])
+U("c07_descend_pair_emphasis", ["C07"], "h_pair_emphasis", ["C07/descend.c"], ["mmd.c"], enforce="pair_emphasis_tokens", rec=True, lib=(),
+  cbmc_flags=["--unwind", "4"], kind="bounded", bounds={"shape": "2 siblings, child chains of 2 and 1 tokens"},
+  functions=["pair_emphasis_tokens"], callees={"recursive call": "contract (requires: argument is the head of a child chain)"}, min_obligations=10,
+  assumptions=["token types symbolic, mates NULL; shape fixed (2 siblings with children)"])
